@@ -6,6 +6,7 @@ import (
 	"html/template"
 	"os"
 	filepathpkg "path/filepath"
+	"sort"
 	"strings"
 
 	"github.com/antlr4-go/antlr/v4"
@@ -112,6 +113,27 @@ func NewPacketDslParserByContent(data string) (*gen.PacketDslParser, *antlr.Comm
 
 	parser := gen.NewPacketDslParser(stream)
 	return parser, stream, nil
+}
+
+// sortedPacketNames returns the keys of a packet map in sorted order, so that
+// generated output does not depend on Go's randomised map iteration order.
+func sortedPacketNames(packets map[string]*model.Packet) []string {
+	names := make([]string, 0, len(packets))
+	for name := range packets {
+		names = append(names, name)
+	}
+	sort.Strings(names)
+	return names
+}
+
+// sortedMatchKeys returns the match key field names of a packet in sorted order.
+func sortedMatchKeys(matchFields map[string][]model.MatchPair) []string {
+	keys := make([]string, 0, len(matchFields))
+	for key := range matchFields {
+		keys = append(keys, key)
+	}
+	sort.Strings(keys)
+	return keys
 }
 
 // RenderToString render tmpl
